@@ -24,13 +24,19 @@ package store
 
 //@ pure idxCacheOK() = forall h uint64 @ icHas[h] :: icHas[h] ==> dsHas[kHeight(h)] && icVal[h] == dsVal[kHeight(h)]
 
+// Read faults: the datastore model of specs/store.spec lets reads fail with ErrNotFound only. At the height
+// index - the lookup every deletion and every read by height starts with - a second outcome is considered:
+// the read fails for another reason (I/O error, timeout) and nothing is known about the key. The callers must
+// then fail too, and in particular must not take the height for missing.
+//@ predicate readFault(e error)
+//@ axiom read-fault-is-no-verdict: forall e error @ readFault(e) :: readFault(e) ==> e != nil && !errors.Is(e, datastore.ErrNotFound) && !errors.Is(e, header.ErrNotFound) && !errors.Is(e, errMissingHeader) && asVerr(e) == nil
 //@ func (*heightIndexer).HashByHeight(hi, ctx, h, cache)
 //@   props C04
 //@   requires idxCacheOK()
 //@   modifies ghost:icHas, ghost:icVal
 //@   ensures [C04] coherent: idxCacheOK()
 //@   ensures [C04] found: result1 == nil ==> dsHas[kHeight(h)] && result0 == dsVal[kHeight(h)]
-//@   ensures [C04] missing: result1 != nil ==> !dsHas[kHeight(h)] && errors.Is(result1, datastore.ErrNotFound)
+//@   ensures [C04] missing: result1 != nil ==> (!dsHas[kHeight(h)] && errors.Is(result1, datastore.ErrNotFound)) || readFault(result1)
 //@   ensures [C04] cache-grows-only-here: forall k uint64 @ icHas[k] :: icHas[k] ==> old(icHas)[k] || (k == h && cache && result1 == nil)
 
 // ---- pending batch (headers appended but not yet flushed)
@@ -95,7 +101,6 @@ package store
 
 //@ func (*Store).getByHeight(s, ctx, height)
 //@   props C04
-//@   unreachable return3 : datastore read errors other than ErrNotFound are not modelled (store.spec)
 //@   requires hdrCacheOK() && dsHdrOK() && dsIdxOK() && idxCacheOK() && batchOK(s.pending) && ptrsOK(s) && s.heightIndex != nil
 //@   modifies $now, ghost:hcHas, ghost:hcVal, ghost:icHas, ghost:icVal
 //@   ensures [C04] coherent: hdrCacheOK() && idxCacheOK()
@@ -424,7 +429,6 @@ package store
 
 //@ func (*Store).deleteSingle(s, ctx, height, onDelete)
 //@   props C08, C14, C06
-//@   unreachable return2 : datastore read errors other than ErrNotFound are not modelled (store.spec)
 //@   requires storeINV(s) && !isBatch(s.ds)
 //@   ghost herr error := result0 of call deleteFn #0
 //@   modifies $now, ghost:hcHas, ghost:hcVal, ghost:icHas, ghost:icVal, ghost:hCalls, ghost:hFailed, ghost:dsHas, ghost:dsWrites, ghost:dsDeletes, MH_Int_Hdr_has, MH_Str_Int_has
